@@ -15,5 +15,3 @@ mod c17;
 mod c18;
 #[cfg(kani)]
 mod c19;
-#[cfg(kani)]
-mod probe;
